@@ -408,6 +408,9 @@ pub struct XlsbBook {
     pub vba: Option<Vec<u8>>,
     /// extra zip parts (name, bytes)
     pub extra_parts: Vec<(String, Vec<u8>)>,
+    /// extra records `(id, payload)` written between BrtWbProp and BrtBeginBundleShs, framed minimally
+    /// (C16: BrtBookView and friends; `read_workbook` scans the payload of records it does not know as record ids)
+    pub workbook_pre: Vec<(u16, Vec<u8>)>,
 }
 
 impl Default for XlsbBook {
@@ -431,6 +434,7 @@ impl XlsbBook {
             deflate: true,
             vba: None,
             extra_parts: vec![],
+            workbook_pre: vec![],
         }
     }
     pub fn sheet_path(&self, i: usize) -> String {
@@ -449,6 +453,9 @@ impl XlsbBook {
         p.extend_from_slice(&0u32.to_le_bytes());
         p.extend_from_slice(&wide_str(""));
         fr.rec(&mut o, 0x0099, &p); // BrtWbProp
+        for (id, p) in &self.workbook_pre {
+            fr.rec_min(&mut o, *id, p);
+        }
         fr.rec_min(&mut o, 0x008F, &[]); // BrtBeginBundleShs
         for (i, s) in self.sheets.iter().enumerate() {
             let mut p = s.state.to_le_bytes().to_vec();
